@@ -320,7 +320,7 @@ Definition run (v : wv) : wv :=
       | Some ps, Some ars, Some bs, Some cs =>
           let setup := taken_path ps ars (Z.to_nat k) in
           let body := ungated bs in
-          wok [wbool (len_ok setup body && (Z.to_nat k <? length ars)%nat);
+          wok [wbool (len_ok setup body);
                WL (tf_trace setup body cs);
                WL (tp_trace setup body cs);
                w_lens (arm_lens ps ars);
